@@ -475,7 +475,10 @@ func ZZC09Broker() {
 	p2ack := P2.connect(srv2, false, 1000)
 	zzrt.Assert(p2ack != nil && p2ack.Code == codes.Success, "publisher-reconnects")
 	for _, m := range msgs {
-		retransmit := !m.pubAck || (m.qos == 2 && !m.pubDone)
+		// a publisher that got no acknowledgement retransmits the PUBLISH; one that got
+		// PUBREC but not PUBCOMP goes on with PUBREL (below) and may or may not have
+		// retransmitted the PUBLISH first (its PUBREC may have been lost on the way)
+		retransmit := !m.pubAck || (m.qos == 2 && !m.pubDone && zzrt.Choice(2) == 1)
 		if !retransmit {
 			continue
 		}
